@@ -4,6 +4,7 @@ mod codec;
 mod fsm;
 mod img;
 mod mutimg;
+mod seq;
 mod util;
 
 use std::env;
@@ -19,6 +20,7 @@ fn main() {
         "fs" => fsm::run(&opts),
         "img" => img::run(&opts),
         "codec" => codec::run(&opts),
+        "seq" => seq::run(&opts),
         "mutimg" => mutimg::run(&opts),
         "probe" => img::probe(&opts),
         "genimg" => img::genimg(&opts),
